@@ -20,7 +20,7 @@ WireStage(st) ==
     [] st.t = "logfmt" -> [t |-> "logfmt", labels |-> st.labels, exprs |-> [k \in DOMAIN st.lexprs |-> <<st.lexprs[k].label, st.lexprs[k].key>>]]
     [] st.t = "pattern" -> [t |-> "pattern", txt |-> PatText(st.parts)]
     \* the regexp stage: its text and which capture index carries which name (groups count from 1 in order of "(")
-    [] st.t = "regexp" -> [t |-> "regexp", txt |-> st.val, names |-> CapNames(st.re)]
+    [] st.t = "regexp" -> [t |-> "regexp", txt |-> st.val, names |-> Indexed(st.re, 1)]
     [] st.t \in {"unpack", "decolorize"} -> [t |-> st.t]
     [] st.t = "linefmt" -> [t |-> "linefmt", txt |-> TmplText(st.parts)]
     [] st.t = "labelfmt" -> [t |-> "labelfmt", renames |-> [k \in DOMAIN st.renames |-> <<st.renames[k].dst, st.renames[k].src>>],
